@@ -14,7 +14,9 @@ use crate::httpref::short;
 use crate::peers::{Act, End, Script};
 use crate::runner::{violation, RunCtx, RunReport, Stats, Verdict};
 
-const ALPHA: &[&[u8]] = &[b"0", b"1", b"9", b"a", b"F", b";", b":", b" ", b"\r", b"\n", b"+", b"-", b"x", b"\r\n", b"HTTP/1.1 200 OK\r\n", b"\r\n\r\n"];
+// appended after the first round-7 miss: the other whitespace octet (HTAB is optional whitespace around field
+// values and list members), a field name that is a complete line start, and a NUL
+const ALPHA: &[&[u8]] = &[b"0", b"1", b"9", b"a", b"F", b";", b":", b" ", b"\r", b"\n", b"+", b"-", b"x", b"\r\n", b"HTTP/1.1 200 OK\r\n", b"\r\n\r\n", b"\t", b"X-N:", b"\0", b"\t\r\n"];
 
 struct Plan {
     /// the hostile bytes are a proxy's reply to CONNECT (https URL behind an http proxy)
@@ -257,9 +259,14 @@ fn gen(g: &mut G, thorough: bool) -> Plan {
                     // after the last chunk: lines without end where the final CRLF should be (well-formed trailer
                     // fields, lines whose name is not a token, lines without a colon).  A client that knows no
                     // trailers refuses at once; one that reads them must count every line
-                    let mut w = b"HTTP/1.1 200 OK\r\nTransfer-Encoding: chunked\r\n\r\n5\r\nhello\r\n0\r\n".to_vec();
-                    let start = w.len();
                     let style = g.below(3);
+                    // (no draw) half of these responses announce their trailer section in the head
+                    let mut w = if style != 2 && total % 2 == 0 || style == 0 {
+                        b"HTTP/1.1 200 OK\r\nTrailer: X-T0, X-T1\r\nTransfer-Encoding: chunked\r\n\r\n5\r\nhello\r\n0\r\n".to_vec()
+                    } else {
+                        b"HTTP/1.1 200 OK\r\nTransfer-Encoding: chunked\r\n\r\n5\r\nhello\r\n0\r\n".to_vec()
+                    };
+                    let start = w.len();
                     let mut i = 0usize;
                     while w.len() < total {
                         match style {
